@@ -80,6 +80,14 @@ def lin(v, unsigned=True):
                         out.append((ca + cb + [_scale(d, -1)], d))          # a-b ≥ 0 → a-b
                         out.append((ca + cb + [d], const(0)))              # a-b ≤ 0 → 0
                 return out
+            if last == "saturating_add" and len(args) == 2:
+                # s = min(a + b, MAX): an opaque value with  a ≤ s,  b ≤ s,  s ≤ a + b  (all that proofs of upper bounds need)
+                out = []
+                sv = var(name)
+                for ca, fa in lin(args[0], unsigned):
+                    for cb, fb in lin(args[1], unsigned):
+                        out.append((ca + cb + [_add(sv, _add(fa, fb), -1), _add(fa, sv, -1), _add(fb, sv, -1)], sv))
+                return out
             if last == "clamp" and len(args) == 3:
                 # Ord::clamp(x, lo, hi) asserts lo ≤ hi (it panics otherwise — C16's concern, not a value) and is min(max(x, lo), hi)
                 out = []
